@@ -629,6 +629,11 @@ def run_subset(case, ctx):
     detail = {"model": m.to_json(), "nodes": lst, "reorder_populations": reorder,
               "remove_unreferenced": remove, "variant": variant, "record_provenance": record}
     tc = to_tables(m)
+    arg = lst
+    if lst and rng.random() < 0.3:
+        import numpy as np
+        arg = np.array(lst, dtype=rng.choice([np.int32, np.int64, np.uint32 if min(lst) >= 0 else np.int64]))
+        ctx.feature("subset:numpy-node-list")
     kw = dict(record_provenance=record, reorder_populations=reorder, remove_unreferenced=remove)
     if rng.random() < 0.5:
         # documented defaults: record_provenance=True, reorder_populations=True, remove_unreferenced=True
@@ -638,10 +643,10 @@ def run_subset(case, ctx):
     try:
         if variant == "ts":
             src_ts = tc.tree_sequence()
-            res = src_ts.subset(lst, **kw).dump_tables()
+            res = src_ts.subset(arg, **kw).dump_tables()
         else:
             res = tc
-            res.subset(lst, **kw)
+            res.subset(arg, **kw)
         err = None
     except LIBERR as e:
         err = e
@@ -800,8 +805,11 @@ def flip(rng, b):
     return b[:j] + bytes([b[j] ^ (1 << rng.randrange(8))]) + b[j + 1:]
 
 
-def call_union(variant, stc, otc, mapping, kw):
+def call_union(variant, stc, otc, mapping, kw, as_array=False):
     """Returns (result tables or None, error or None)."""
+    if as_array and mapping:
+        import numpy as np
+        mapping = np.array(mapping, dtype=np.int64 if as_array == 2 else np.int32)
     try:
         if variant == "ts":
             sts = stc.tree_sequence()
@@ -863,7 +871,7 @@ def run_union(case, ctx):
         otc.tree_sequence()  # a failure here is an error of the reference subset, not a verdict
         stc.tree_sequence()
     other_before = from_tables(otc).signature()
-    res, err = call_union(variant, stc, otc, mapping, kw)
+    res, err = call_union(variant, stc, otc, mapping, kw, as_array=rng.choice([0, 0, 1, 2]))
     if from_tables(otc).signature() != other_before:
         ctx.violation("union/other-modified", "union modified `other`", detail)
     if perturbed and check_shared:
